@@ -346,22 +346,37 @@ func reuseportAcceptWorld(et bool) *world {
 	if et {
 		w.opts = append(w.opts, WithEdgeTriggeredIO(true))
 	}
+	active := true
 	w.deviate = func(site string, fd int, n int) []string {
+		if !active {
+			return nil
+		}
 		if site == "accept4" {
 			return []string{"EAGAIN", "EINTR", "ECONNABORTED"}
+		}
+		if site == "epoll_ctl_add" && isConnFd(fd) {
+			// the registration of the connection just accepted by this loop fails: that connection is
+			// lost, the loop and the engine are not
+			return []string{"ENOMEM"}
 		}
 		return nil
 	}
 	w.onTraffic = echoTraffic
-	var fp *faultPeer
+	var fp, probe *faultPeer
 	w.script = func(w *world) {
 		sched.SetSettle(6)
 		done := 0
 		fp = &faultPeer{p: w.newPeer(), msgs: [][]byte{echoMsg(1, 0, 5), echoMsg(1, 1, 9)}}
+		probe = &faultPeer{p: w.newPeer(), msgs: [][]byte{echoMsg(9, 0, 5)}}
 		sched.Go("peer", func() {
 			defer func() { done++ }()
 			w.waitBoot()
 			fp.run()
+			sched.WaitIdle()
+			active = false
+			if !w.runDone {
+				probe.run() // liveness: a fresh connection is still served
+			}
 		})
 		w.ctl(&done, 1, nil)
 	}
@@ -374,6 +389,12 @@ func reuseportAcceptWorld(et bool) *world {
 		}
 		if !w.runDone || w.runErr != nil {
 			return fmt.Sprintf("after a transient %s the engine stopped serving (Run done=%v err=%v end=%s blocked=%v)", inj, w.runDone, w.runErr, out.End, out.Blocked), "fault:accept-not-transient:" + inj
+		}
+		if !probe.complete {
+			return fmt.Sprintf("after injecting %s a fresh connection was not served any more (the engine went down with one connection's failure?): probe received %d bytes, eof=%v err=%v", inj, len(probe.p.got), probe.p.eof, probe.p.rerr), "fault:probe:" + inj
+		}
+		if inj == "epoll_ctl_add:ENOMEM" {
+			return "", "" // the connection whose registration failed is the victim
 		}
 		if !fp.complete {
 			return fmt.Sprintf("after a transient %s the pending connection was not served: peer received %d bytes (eof=%v err=%v)", inj, len(fp.p.got), fp.p.eof, fp.p.rerr), "fault:accept-not-transient:" + inj
